@@ -33,6 +33,8 @@ pub enum Op {
     Reset { link: u16, kind: u8 },
     Remove { link: u16 },
     Advance(u32),
+    /// one reload that drops two links at once
+    RemoveTwo { a: u16, b: u16 },
 }
 
 #[derive(Debug, Clone, Hash, Serialize, Deserialize)]
@@ -96,14 +98,25 @@ pub fn strategy(which: Which, max_ops: usize) -> impl Strategy<Value = Case> {
         if which == Which::C05 { 8 } else { 4 } => (any::<u16>(), vec((off(), prop_oneof![4 => Just(0u8), 1 => 1u8..6]), 1..5), any::<bool>())
             .prop_map(|(arrival, items, direct)| Op::Nak { arrival, items, direct }),
         1 => (any::<u16>(), 0u8..4).prop_map(|(link, kind)| Op::Reset { link, kind }),
-        if which == Which::C05 { 1 } else { 0 } => any::<u16>().prop_map(|link| Op::Remove { link }),
         3 => time_step(which).prop_map(Op::Advance),
     ];
+    // link removal (reload) only in the C05 histories; proptest unions reject zero weights
+    let op = if which == Which::C05 {
+        prop_oneof![
+            51 => op,
+            1 => any::<u16>().prop_map(|link| Op::Remove { link }),
+            1 => (any::<u16>(), any::<u16>()).prop_map(|(a, b)| Op::RemoveTwo { a, b }),
+        ]
+        .boxed()
+    } else {
+        op.boxed()
+    };
+    let links = if which == Which::C05 { prop_oneof![4 => 1u8..=4, 2 => 5u8..=6].boxed() } else { (1u8..=4).boxed() };
     (
-        1u8..=4,
+        links,
         prop_oneof![Just(0u32), Just(1u32 << 30), 0u32..(0x7fff_ffff - 80_000), Just(0x7fff_ffff - 80_000)],
         any::<bool>(),
-        vec(prop_oneof![5 => Just(0u8), 3 => 183u8..196, 1 => 1u8..183], 4),
+        vec(prop_oneof![5 => Just(0u8), 3 => 183u8..196, 1 => 1u8..183], 6),
         vec(op, 1..max_ops),
     )
         .prop_map(|(n_links, base, classic, pre_naks, ops)| Case { n_links, base, classic, pre_naks, ops })
@@ -514,19 +527,29 @@ pub fn check(case: &Case, obs: &mut Obs, which: Which) -> CheckResult {
                 m.queued.clear();
                 reset_links.insert(cid, oi);
             }
-            Op::Remove { link } => {
-                if nl <= 1 {
-                    continue;
-                }
-                let li = idx(*link, nl);
-                let cid = sh.st.conns[li].conn_id;
-                let keep: Vec<IpAddr> = sh.st.conns.iter().enumerate().filter(|(i, _)| *i != li).map(|(_, c)| c.local_ip).collect();
+            Op::Remove { .. } | Op::RemoveTwo { .. } => {
+                let drop_idx: Vec<usize> = match op {
+                    Op::Remove { link } if nl > 1 => vec![idx(*link, nl)],
+                    Op::RemoveTwo { a, b } if nl > 2 => {
+                        let x = idx(*a, nl);
+                        let mut y = idx(*b, nl - 1);
+                        if y >= x {
+                            y += 1;
+                        }
+                        vec![x, y]
+                    }
+                    _ => continue,
+                };
+                let cids: Vec<u64> = drop_idx.iter().map(|i| sh.st.conns[*i].conn_id).collect();
+                let keep: Vec<IpAddr> = sh.st.conns.iter().enumerate().filter(|(i, _)| !drop_idx.contains(i)).map(|(_, c)| c.local_ip).collect();
                 sh.apply_ips(&keep);
-                vensure!(sh.st.conns.iter().all(|c| c.conn_id != cid), "remove-failed", "op {oi}: link not removed by reload");
-                model.remove(&cid);
-                owners.purge(cid);
-                removed_links.insert(cid);
-                obs.class("link-removed");
+                for cid in cids {
+                    vensure!(sh.st.conns.iter().all(|c| c.conn_id != cid), "remove-failed", "op {oi}: link not removed by reload");
+                    model.remove(&cid);
+                    owners.purge(cid);
+                    removed_links.insert(cid);
+                }
+                obs.class(if drop_idx.len() > 1 { "two-links-removed-at-once" } else { "link-removed" });
                 let _ = link_ip(0);
             }
         }
